@@ -79,31 +79,31 @@ Definition feq (a b : fl) : bool :=
   | _, _ => false
   end.
 
-Inductive binop := Add | Sub | Mul | Min | Max | Ge | Gt | Le | Lt | Eq | Ne.
-Inductive unop := Abs | Not | Neg | IsNan | IsFinite.
+Inductive binop := BAdd | BSub | BMul | BMin | BMax | BGe | BGt | BLe | BLt | BEq | BNe.
+Inductive unop := UAbs | UNot | UNeg | UIsNan | UIsFinite.
 
 Definition vbin (o : binop) (a b : val) : option val :=
   match a, b with
   | VInt x, VInt y =>
       Some (VInt (match o with
-                  | Add => x + y | Sub => x - y | Mul => x * y
-                  | Min => Z.min x y | Max => Z.max x y
-                  | Ge => bz (y <=? x) | Gt => bz (y <? x) | Le => bz (x <=? y) | Lt => bz (x <? y)
-                  | Eq => bz (x =? y) | Ne => bz (negb (x =? y))
+                  | BAdd => x + y | BSub => x - y | BMul => x * y
+                  | BMin => Z.min x y | BMax => Z.max x y
+                  | BGe => bz (y <=? x) | BGt => bz (y <? x) | BLe => bz (x <=? y) | BLt => bz (x <? y)
+                  | BEq => bz (x =? y) | BNe => bz (negb (x =? y))
                   end))
   | _, _ =>
       let x := to_fl a in
       let y := to_fl b in
       match o with
-      | Add => Some (VFlt (fadd x y))
-      | Sub => Some (VFlt (fsub x y))
-      | Mul | Min | Max => None                 (* not used on floats by the kernels *)
-      | Ge => Some (VInt (bz (fle y x)))
-      | Gt => Some (VInt (bz (flt y x)))
-      | Le => Some (VInt (bz (fle x y)))
-      | Lt => Some (VInt (bz (flt x y)))
-      | Eq => Some (VInt (bz (feq x y)))
-      | Ne => Some (VInt (bz (negb (feq x y))))
+      | BAdd => Some (VFlt (fadd x y))
+      | BSub => Some (VFlt (fsub x y))
+      | BMul | BMin | BMax => None                 (* not used on floats by the kernels *)
+      | BGe => Some (VInt (bz (fle y x)))
+      | BGt => Some (VInt (bz (flt y x)))
+      | BLe => Some (VInt (bz (fle x y)))
+      | BLt => Some (VInt (bz (flt x y)))
+      | BEq => Some (VInt (bz (feq x y)))
+      | BNe => Some (VInt (bz (negb (feq x y))))
       end
   end.
 
@@ -111,19 +111,19 @@ Definition vun (o : unop) (a : val) : option val :=
   match a with
   | VInt z =>
       match o with
-      | Abs => Some (VInt (Z.abs z))
-      | Not => Some (VInt (bz (z =? 0)))
-      | Neg => Some (VInt (- z))
-      | IsNan => Some (VInt 0)
-      | IsFinite => Some (VInt 1)
+      | UAbs => Some (VInt (Z.abs z))
+      | UNot => Some (VInt (bz (z =? 0)))
+      | UNeg => Some (VInt (- z))
+      | UIsNan => Some (VInt 0)
+      | UIsFinite => Some (VInt 1)
       end
   | VFlt f =>
       match o with
-      | Abs => Some (VFlt (fabs f))
-      | Not => None
-      | Neg => Some (VFlt (fneg f))
-      | IsNan => Some (VInt (match f with NaN => 1 | _ => 0 end))
-      | IsFinite => Some (VInt (match f with Fin _ => 1 | _ => 0 end))
+      | UAbs => Some (VFlt (fabs f))
+      | UNot => None
+      | UNeg => Some (VFlt (fneg f))
+      | UIsNan => Some (VInt (match f with NaN => 1 | _ => 0 end))
+      | UIsFinite => Some (VInt (match f with Fin _ => 1 | _ => 0 end))
       end
   end.
 
@@ -366,7 +366,7 @@ Fixpoint exec (s : stmt) (st : state) {struct s} : res :=
   | SStore3 a i j k e => store a [i; j; k] (fun _ _ => eval st e) st
   | SAug2 a i j e =>
       store a [i; j] (fun A zs => match aread A zs, eval st e with
-                                  | Some v0, Some v => vbin Add v0 v
+                                  | Some v0, Some v => vbin BAdd v0 v
                                   | _, _ => None
                                   end) st
   | SIf c th el =>
